@@ -122,7 +122,7 @@ def write_adf11(path, element_name, z_nuclear, log_ne, log_te, blocks, layout="9
             "blocks": truth_blocks, "n_records": len(rec), "layout": layout, "trailer": trailer}
 
 
-def content_adf11(nne, nte, z1_list, first_te_negative=True, multi=None):
+def content_adf11(nne, nte, z1_list, first_te_negative=True, multi=None, rev=0):
     """Deterministic ADF11 content.  multi: None -> one block per z1; else dict z1 -> list of (iprt, igrd)."""
     log_ne = np.round(np.linspace(7.69897, 15.30103, nne), 5) if nne > 1 else np.array([13.0])
     t0 = -0.69897 if first_te_negative else 0.17609
@@ -135,7 +135,7 @@ def content_adf11(nne, nte, z1_list, first_te_negative=True, multi=None):
             i = np.arange(nne)[:, None]
             j = np.arange(nte)[None, :]
             # all cells distinct within a block and between blocks; |v| < 100
-            tab = -(7.0 + 2.9 * z1 + 0.731 * iprt + 0.173 * igrd + 0.37 * i + 0.011 * j)
+            tab = -(7.0 + 2.9 * z1 + 0.731 * iprt + 0.173 * igrd + 0.37 * i + 0.011 * j + 0.00101 * rev)   # rev: another edition of the same file
             blocks.append({"z1": z1, "iprt": iprt, "igrd": igrd, "table": np.round(tab, 5)})
             k += 1
     return log_ne, log_te, blocks
@@ -272,7 +272,7 @@ PAIR_ABSENT_X = (12, 11)
 _TYPES = ["EXCIT", "CHEXC", "RECOM"]
 
 
-def content_adf15(nne, nte, nblocks, style="hydrogen", types="mixed"):
+def content_adf15(nne, nte, nblocks, style="hydrogen", types="mixed", rev=0):
     """nblocks blocks; 'mixed' cycles EXCIT, CHEXC, RECOM on one transition, then moves to the next transition; 'EXCIT'/'RECOM'/'CHEXC' uses one type with a new transition per block."""
     pairs = _PAIRS_H if style == "hydrogen" else _PAIRS_X
     ne = np.geomspace(5.0e7, 1.0e15, nne) if nne > 1 else np.array([1.0e13])
@@ -288,7 +288,7 @@ def content_adf15(nne, nte, nblocks, style="hydrogen", types="mixed"):
         i = np.arange(nne)[:, None]
         j = np.arange(nte)[None, :]
         # every cell of a block gets a distinct three-digit mantissa (1PE8.2 keeps three digits); blocks differ by decade
-        pec = (1.0 + ((i * nte + j) % 900) / 100.0) * 10.0 ** (-9 - (k % 6))
+        pec = (1.0 + ((i * nte + j + 37 * rev) % 900) / 100.0) * 10.0 ** (-9 - (k % 6))
         blocks.append({"wavelength": 1215.2 + 345.7 * (up * 13 + lo), "upper": up, "lower": lo, "type": typ, "ne": ne, "te": te, "pec": pec})
     if len(set((b["type"], b["upper"], b["lower"]) for b in blocks)) != len(blocks):
         raise ValueError("content_adf15: (type, transition) must be unique within a file (at most %d blocks of one type)" % len(pairs))
@@ -351,7 +351,7 @@ def write_adf12(path, blocks, letter="D", declared_count=None, receiver="C+6", d
     return {"blocks": tb, "declared_count": n, "n_records": len(rec)}
 
 
-def content_adf12(nbeam, nti, ndi, nze, nb, nblocks):
+def content_adf12(nbeam, nti, ndi, nze, nb, nblocks, rev=0):
     trs = [(8, 7), (10, 9), (2, 1)]
     blocks = []
     for k in range(nblocks):
@@ -361,7 +361,7 @@ def content_adf12(nbeam, nti, ndi, nze, nb, nblocks):
             return np.geomspace(lo_, hi_, n) if n > 1 else np.array([lo_])
 
         def q(n, base):
-            return base * (1.0 + 0.01 * np.arange(n)) * 10.0 ** (-(np.arange(n) % 4))
+            return base * (1.0 + 0.1 * rev) * (1.0 + 0.01 * np.arange(n)) * 10.0 ** (-(np.arange(n) % 4))
         blocks.append({
             "upper": up, "lower": lo, "qefref": 1.01e-10 * (k + 1),
             "ebref": 5.0e4, "tiref": 1.0e3, "niref": 2.5e13, "zeref": 2.0, "bref": 3.0,
@@ -431,12 +431,12 @@ def write_adf21(path, eb, dt, sv, tt, svt, svref=9.734e-8, tref=2.0e3, eref=6.5e
 write_adf22 = write_adf21
 
 
-def content_adf21(neb, ndt, ntt, scale=1.0e-7):
+def content_adf21(neb, ndt, ntt, scale=1.0e-7, rev=0):
     eb = np.geomspace(5.0e3, 1.5e5, neb) if neb > 1 else np.array([6.5e4])
     dt = np.geomspace(1.0e12, 1.0e15, ndt) if ndt > 1 else np.array([6.0e13])
     tt = np.geomspace(1.0e1, 1.0e4, ntt) if ntt > 1 else np.array([2.0e3])
     i = np.arange(neb)[:, None]
     j = np.arange(ndt)[None, :]
-    sv = scale * (1.0 + 0.013 * i + 0.37 * j)
-    svt = scale * (2.0 + 0.011 * np.arange(ntt))
+    sv = scale * (1.0 + 0.1 * rev + 0.013 * i + 0.37 * j)
+    svt = scale * (2.0 + 0.1 * rev + 0.011 * np.arange(ntt))
     return eb, dt, sv, tt, svt
